@@ -12,11 +12,12 @@ import (
 
 	"gitee.com/xuesongtao/protoc-go-valid/valid"
 	"verif/internal/errparse"
+	"verif/internal/lang"
 	"verif/internal/runner"
 	"verif/internal/walk"
 )
 
-var ruleMenu = []string{"required", "to=2~3", "eq=2", "in=(a/b)", "phone", "zz", "either=1", "botheq=1"}
+var ruleMenu = []string{"required", "to=2~3", "eq=2", "in=(a/b)", "phone", "zz", "either=1", "botheq=1", "in=('a,b'/'ab')"}
 
 type kindSpec struct {
 	name string
@@ -242,7 +243,7 @@ func evalCase(c *runner.Ctx, fs []fieldSpec, msgMode bool, variant int, tagMode 
 			if !ok {
 				continue
 			}
-			parts := strings.Split(text, ",")
+			parts := lang.SplitOutsideQuotes(text, ',')
 			if (i+len(parts))%2 == 0 {
 				callRM.Set(name, parts...)
 			} else {
